@@ -73,10 +73,10 @@ class Ctx:
         self.comp_n = 0
         self.unsupported = None
 
-    def oblige(self, kind, st, goal, line=0, note=""):
+    def oblige(self, kind, st, goal, line=0, note="", force=False):
         if self.spec_mode:
             return
-        if z3.is_true(goal):
+        if z3.is_true(goal) and not force:
             return
         n = sum(1 for o in self.obligs if o.kind == kind and o.line == line)
         name = "%s:%s@L%d#%d" % (self.contract.key, kind, line, n)
